@@ -9,7 +9,8 @@ EXPL = ("Decided (progress + conservation): (P-SELECT) in the batch selector the
         "routed, the remainder is re-examined by the enclosing loop or passed to the insertion rooted at the same bucket, buckets it "
         "reports over-full are OR-ed back into the worklist, which pops exactly the id it examines and stores the new subtree under "
         "that id; (Q-PROGRESS) when an over-full bucket is rebuilt from a partial batch, the tree constructor's single-bucket shortcut is disabled while a remainder exists (otherwise re-inserting the remainder recreates the same bucket and the worklist never drains); (R-MEMORY-HINT) the available_memory option reaches nothing but the selector's memory argument. NOT decided: "
-        "termination when re-splitting does not shrink (duplicates, C20); time.")
+        "termination when re-splitting does not shrink (duplicates, C20); time."
+        " Q-PROGRESS requires every bucket-return site of the tree constructor to be disabled while a remainder exists, and its recursive calls to re-enable the shortcut with a constant (a forced split must not propagate to subsets); the C01 / C06 premise rule sets (incl. R-FULL-SCAN and applied-before-next-round, which are what a tight memory hint exercises) are re-evaluated.")
 
 
 def run(ctx):
